@@ -1,5 +1,5 @@
 (* C09 — tables keep their grid: rows, cells, spans and header rows. *)
-From Mammoth Require Import Tables TablesFacts Convert ConvertSpec ConvertRules Reader TableEndSpec TableEndFacts.
+From Mammoth Require Import Tables TablesFacts Convert ConvertSpec ConvertRules Reader Xml TableEndSpec TableEndFacts TableXmlSpec TableXmlFacts.
 Local Open Scope N_scope.
 
 (* THE grid theorem, for every well-formed tiling encoding of any size: laying out the cells that the
@@ -99,6 +99,21 @@ Theorem C09_reader_table_layout (W : N) (rows : list delem) :
   = Some (doc_grid (abs_rows rows) []).
 Proof. exact (reader_table_layout W rows). Qed.
 
+(* ---------- from the XML of a w:tbl element ----------
+   xml_tiling tbl: for each w:tr, for each w:tc: (w:gridSpan value or 1, vMerge continuation, identity).  plain_table: the table holds only
+   w:tblPr / w:tblGrid / w:tr, each row only w:trPr / w:tc (range markup between rows makes the reader give up merging, with a warning).
+   Whatever the cells contain, the reader returns ONE table whose rows carry the header flags of the XML and whose cells, laid out by the HTML
+   table algorithm, cover the document grid of the XML tiling *)
+Theorem C09_xml_table_layout (W : N) (fuel : nat) (env : renv) (tbl : xml) (st st' : rstate) (r : rres) :
+  plain_table tbl = true -> read_el fuel env tbl st = Ok (r, st') ->
+  exists rows' sid sname,
+    rr_elems r = [DTable rows' sid sname]
+    /\ map row_header rows' = map tr_is_header (tbl_rows tbl)
+    /\ (wf_tiling W (xml_tiling tbl) = true ->
+        match table_ocells tbl (DTable rows' sid sname) with Some ocs => html_layout (N.to_nat W) ocs | None => None end
+        = Some (doc_grid (xml_tiling tbl) [])).
+Proof. exact (read_tbl_layout W fuel env tbl st st' r). Qed.
+
 Print Assumptions C09_rowspans_layout.
 Print Assumptions C09_cells_kept.
 Print Assumptions C09_cell.
@@ -106,3 +121,4 @@ Print Assumptions C09_row.
 Print Assumptions C09_table.
 Print Assumptions C09_reader_sweep_refines.
 Print Assumptions C09_reader_table_layout.
+Print Assumptions C09_xml_table_layout.
